@@ -2084,6 +2084,7 @@ func (x *Exec) execRange(s *ast.RangeStmt, env *Env, label string) *Env {
 				if valObj != nil {
 					v := Select(val, k)
 					v.GoT = valObj.Type()
+					x.typeFacts(v, valObj.Type(), e.pc)
 					e.vars[valObj] = v
 				}
 				e.vars[vis] = Term{S: Store(e.vars[vis], k, True).S, Sort: visSort}
